@@ -471,7 +471,7 @@ pub fn gen(tier: Tier, r: &mut Rng, emit: &mut dyn FnMut(String)) {
     let q = tier == Tier::Quick;
     let scale = |quick: usize, thorough: usize| if q { quick } else { thorough };
     // ---- parser ------------------------------------------------------------------------------
-    for _ in 0..scale(5000, 600_000) {
+    for _ in 0..scale(5000, 100_000) {
         let p = program_soup(r);
         emit(format!("C30 parse {}", hex_bytes(p.as_bytes())));
     }
@@ -505,12 +505,18 @@ pub fn gen(tier: Tier, r: &mut Rng, emit: &mut dyn FnMut(String)) {
         ] {
             let p = format!("{}{}{}", o.repeat(n), m, c.repeat(n));
             let p = if o == "?" { format!(".{}", "?".repeat(n)) } else if o == "." { format!(".a{}", "?".repeat(n)) } else { p };
-            emit(format!("C30 evx {} {}", hex_bytes(p.as_bytes()), hex_bytes(b"null")));
+            if q {
+                // quick: one child process for all depth-200 shapes
+                evb.push(format!("{}:{}", hex_bytes(p.as_bytes()), hex_bytes(b"null")));
+            } else {
+                emit(format!("C30 evx {} {}", hex_bytes(p.as_bytes()), hex_bytes(b"null")));
+            }
             if n <= 2000 && (!q || n == 2000) {
                 emit(format!("C30 cli jq {} {}", hex_bytes(p.as_bytes()), hex_bytes(b"null")));
             }
         }
         if q {
+            flush_ev(&mut evb, emit);
             break; // quick: the CLI sees only depth 2000 below
         }
     }
@@ -523,7 +529,7 @@ pub fn gen(tier: Tier, r: &mut Rng, emit: &mut dyn FnMut(String)) {
     }
     // ---- soups that happen to parse are also evaluated -----------------------------------------
     let mut evaluated = 0;
-    for _ in 0..scale(6000, 200_000) {
+    for _ in 0..scale(6000, 100_000) {
         let p = program_soup(r);
         if p.contains("input") || p.contains("halt") || p.contains("env") || p.contains("$ENV") || p.contains("debug") || p.contains("stderr") {
             continue;
@@ -535,7 +541,7 @@ pub fn gen(tier: Tier, r: &mut Rng, emit: &mut dyn FnMut(String)) {
                 flush_ev(&mut evb, emit);
             }
             evaluated += 1;
-            if evaluated >= scale(300, 20_000) {
+            if evaluated >= scale(150, 4_000) {
                 break;
             }
         }
@@ -544,7 +550,7 @@ pub fn gen(tier: Tier, r: &mut Rng, emit: &mut dyn FnMut(String)) {
     // ---- every template with a few operands, then random compositions --------------------------
     let cli_input = "[1,[2,{\"a\":\"x\"}],\"s\",null,1.5]";
     for t in TEMPLATES {
-        for k in 0..scale(2, 8) {
+        for k in 0..scale(1, 4) {
             let p = fill(r, t);
             let inp = *r.pick(INPUTS);
             evb.push(format!("{}:{}", hex_bytes(p.as_bytes()), hex_bytes(inp.as_bytes())));
@@ -560,14 +566,14 @@ pub fn gen(tier: Tier, r: &mut Rng, emit: &mut dyn FnMut(String)) {
         }
     }
     flush_cli(&mut clim, "jq", cli_input, emit);
-    for i in 0..scale(900, 60_000) {
+    for i in 0..scale(450, 12_000) {
         let p = composed(r);
         let inp = *r.pick(INPUTS);
         evb.push(format!("{}:{}", hex_bytes(p.as_bytes()), hex_bytes(inp.as_bytes())));
         if evb.len() >= batch_ev {
             flush_ev(&mut evb, emit);
         }
-        if i % scale(8, 3) == 0 && !p.contains("input") && !p.contains("halt") && !p.contains("def ") && !p.contains("label") {
+        if i % scale(4, 3) == 0 && !p.contains("input") && !p.contains("halt") && !p.contains("def ") && !p.contains("label") {
             clim.push(hex_bytes(p.as_bytes()));
             if clim.len() >= batch_cli {
                 flush_cli(&mut clim, if (i / 8) % 4 == 0 { "yq" } else { "jq" }, cli_input, emit);
@@ -594,7 +600,7 @@ pub fn gen(tier: Tier, r: &mut Rng, emit: &mut dyn FnMut(String)) {
         emit(format!("C30 clim jq {} {}", deep_cli.join(","), hex_bytes(b"null")));
     }
     // a few programs individually through the CLI (exit status of the program itself)
-    for _ in 0..scale(12, 2000) {
+    for _ in 0..scale(12, 150) {
         let t = *r.pick(TEMPLATES);
         let p = fill(r, t);
         let inp = *r.pick(INPUTS);
